@@ -2770,6 +2770,9 @@ func checkSpecialCollectionLiteralNode[E ast.ExpressionNode](c *Checker, collect
 }
 
 func checkIntCollectionLiteralNode(c *Checker, collectionType types.Namespace, elements []ast.IntCollectionContentNode, capacity ast.ExpressionNode) types.Type {
+	// whether this literal itself is invalid (the shared list of diagnostics
+	// also receives the failures of other, concurrently checked method bodies)
+	invalid := false
 	for _, elementNode := range elements {
 		c.checkExpression(elementNode)
 	}
@@ -2785,6 +2788,7 @@ func checkIntCollectionLiteralNode(c *Checker, collectionType types.Namespace, e
 				),
 				capacity.Location(),
 			)
+			invalid = true
 		}
 	}
 
@@ -2798,12 +2802,14 @@ func checkIntCollectionLiteralNode(c *Checker, collectionType types.Namespace, e
 		val, err := value.ParseBigInt(n.Value, 0)
 		if err.IsNotUndefined() {
 			c.addFailure(err.Error(), elementNode.Location())
+			invalid = true
+			continue
 		}
 		if largestElement == nil || val.GreaterThanBigInt(largestElement) {
 			largestElement = val
 		}
 	}
-	if c.Errors.IsFailure() {
+	if invalid {
 		return types.Untyped{}
 	}
 
